@@ -366,9 +366,17 @@ impl Property for C12 {
                             gen_call(rng, MClass::ModuleLevel).unwrap_or(BOp::Id)
                         }
                     }
-                    (true, false) => match rng.below(5) {
+                    (true, false) => match rng.below(6) {
                         0 => BOp::Parameter,
                         1 => BOp::EndFunction,
+                        // module-level annotation aimed at the open function (arg_seed = 1 mod 4: see Drv::bias_arguments)
+                        2 => BOp::Call {
+                            method: rng.pick(&["decorate", "decorate", "decorate", "name", "execution_mode", "decorate_id", "decorate_string", "capability"]).to_string(),
+                            arg_seed: rng.next() / 4 * 4 + 1,
+                            explicit_rid: false,
+                            ip_kind: 0,
+                            ip_k: 0,
+                        },
                         _ => BOp::BeginBlock { explicit_id: rng.chance(1, 4) },
                     },
                     (true, true) => match rng.below(6) {
